@@ -73,6 +73,8 @@ struct Case {
     doc: bool,           // every option form used is documented by the binding (false: Level-B expectation only, drift)
     jac_source: String,  // "" (derive from `jac`) | callable | const | fd-grouped | fd-dense : the Jacobian source PyLayer's jacsrc machine
                          // names for this combination of jac / jac_sparsity; the reference run is configured from it
+    probe_steps: bool,   // dense: also evaluate sol at every reported time sol.t[k] (accepted step ends when there is no t_eval)
+    want_pattern_change: bool, // the callable jac returns a sparse container whose stored pattern must change between calls (adequacy)
     census: bool,        // also count, per event function, the crossings in each direction (all events non-terminal): scenario adequacy
 }
 
@@ -107,6 +109,13 @@ impl Prob {
             "sho" => { d[0] = p[0] * y[1]; d[1] = -p[0] * y[0]; }
             "affine" => { d[0] = p[0] * y[0] + p[1] * t; }
             "vdp" => { d[0] = y[1]; d[1] = p[0] * ((1.0 - y[0] * y[0]) * y[1]) - y[0]; }
+            "switch" => {
+                // stiff 3-state system with a coupling term of strength p[0] that is switched off once y[2] <= 0.5
+                let sk = (if y[2] > 0.5 { 1.0 } else { 0.0 }) * p[0];
+                d[0] = (-200.0 * y[0] + sk * y[1]) + 1.0;
+                d[1] = -0.5 * y[1] - sk * y[0];
+                d[2] = -1.0 * y[2];
+            }
             "lin" => {
                 for r in 0..self.n {
                     let mut acc = 0.0;
@@ -130,6 +139,13 @@ impl Prob {
                 j[(0, 1)] = 1.0;
                 j[(1, 0)] = p[0] * (-2.0 * y[0] * y[1]) - 1.0;
                 j[(1, 1)] = p[0] * (1.0 - y[0] * y[0]);
+            }
+            "switch" => {
+                // entries (0,1) and (1,0) are +-p[0] while y[2] > 0.5 and exactly +0.0 afterwards
+                let sk = (if y[2] > 0.5 { 1.0 } else { 0.0 }) * p[0];
+                j[(0, 0)] = -200.0; j[(0, 1)] = sk;
+                j[(1, 0)] = 0.0 - sk; j[(1, 1)] = -0.5;
+                j[(2, 2)] = -1.0;
             }
             "lin" => { for r in 0..n { for c in 0..n { j[(r, c)] = p[0] * self.a[r][c]; } } }
             k => panic!("unknown problem {k}"),
@@ -235,6 +251,17 @@ fn run_case(c: &Case) -> serde_json::Value {
                 }
             }
             rec["sol"] = probes.into();
+            // sol at every reported time (the accepted step ends when there is no t_eval): Solution::sol, token for token
+            let mut at_steps = Vec::new();
+            if c.dense && c.probe_steps {
+                for &t in sol.t.iter() {
+                    at_steps.push(match catch(|| sol.sol(t)) {
+                        Ok(Ok(v)) => serde_json::json!({"t": tok(t), "inside": true, "v": toks(&v)}),
+                        _ => serde_json::json!({"t": tok(t), "inside": false, "v": Vec::<String>::new()}),
+                    });
+                }
+            }
+            rec["sol_steps"] = at_steps.into();
         }
     }
     rec["census"] = if c.census { census(c) } else { serde_json::json!([]) };
@@ -277,6 +304,7 @@ struct Scen {
     #[serde(default)] ngroups: i64,
     #[serde(default)] doc: bool,
     #[serde(default)] njev: String,
+    #[serde(default, rename = "where")] where_: String,   // kind "solseg": position class of the probe time (before start interior step-end end after)
     #[serde(default)] jac: String,          // kind "jacsrc": form of `jac`, container of `jac_sparsity`, source the specification expects
     #[serde(default)] sp: String,
     #[serde(default)] source: String,
@@ -287,7 +315,7 @@ struct ScenEv { terminal: String, direction: String, rterm: i64, rdir: i64, doc:
 
 struct Tables { methods: Vec<Scen>, tols: Vec<Scen>, steps: Vec<Scen>, evattrs: Vec<Scen>, jacs: Vec<Scen>,
                 shapes: Vec<Scen>, patterns: Vec<Scen>, evundoc: Vec<Scen>, spforms: Vec<Scen>, evlists: Vec<Scen>,
-                jacsrcs: Vec<Scen> }
+                jacsrcs: Vec<Scen>, solsegs: Vec<Scen>, jacrets: Vec<Scen> }
 
 fn d(x: f64) -> String { tok(x) }
 
@@ -316,6 +344,7 @@ fn base_case(problem: &str, n: usize) -> Case {
         "affine" => (0.0, 3.0, vec![1.0], vec![-0.75, 0.5]),
         "vdp" => (0.0, 3.0, vec![2.0, 0.0], vec![2.0]),
         "lin" => (0.0, 2.0, (0..n).map(|i| (i + 1) as f64).collect(), vec![0.75]),
+        "switch" => (0.0, 3.0, vec![1.0, 2.0, 1.0], vec![150.0]),
         k => panic!("problem {k}"),
     };
     c.n = y0.len();
@@ -390,6 +419,8 @@ fn apply_facet(c: &mut Case, facet: &str, tb: &Tables, rng: &mut Rng) {
             c.dense = true;
             c.probes = [0.0, 1.0, 5.0, 8.0, 15.0, 16.0].iter().map(|&k| d(lerp(t0, tf, k, 16.0))).collect();
             c.probes_out = vec![d(lerp(t0, tf, 20.0, 16.0)), d(lerp(t0, tf, -4.0, 16.0))];
+            // PyLayer's solseg table: probe positions "start" / "step-end" / "end" are the reported times themselves
+            c.probe_steps = tb.solsegs.iter().any(|s| s.where_ == "step-end");
         }
         "ev-terminal" => {
             let dir = *rng.pick(&["absent", "z"]);
@@ -725,6 +756,47 @@ fn gen_cases(tb: &Tables, seed: u64, tier: &str) -> Vec<Case> {
             }
         }
     }
+    // 9. sol(t) AT the accepted step ends (PyLayer machine solseg: at a step end the step ENDING there answers, as in
+    //    Solution::sol): every problem x every method x {forward, backward}, dense output without t_eval, sol evaluated at
+    //    every reported time (scalar calls and one array call) besides the interior / outside probes of the "dense" facet
+    if tb.solsegs.iter().any(|s| s.where_ == "step-end") {
+        for (p, n) in PROBLEMS.iter() {
+            for m in CANON.iter() {
+                for (backward, tight) in [(false, false), (true, false), (false, true), (true, true)] {
+                    let mut c = base_case(p, *n);
+                    set_method(&mut c, canonical(tb, m));
+                    if backward { apply_facet(&mut c, "backward", tb, &mut rng); }
+                    if tight { apply_facet(&mut c, "tol-scalar", tb, &mut rng); }      // rtol 1e-6, atol 1e-9: more (and shorter) steps
+                    apply_facet(&mut c, "dense", tb, &mut rng);
+                    c.class = (if backward { "sol-step-times-backward" } else { "sol-step-times" }).into();
+                    out.push(c);
+                }
+            }
+        }
+    }
+    // 10. a callable jac returning the matrix in a container (PyLayer machine jacret): dense ndarray and every sparse
+    //     container form x {Radau, BDF} on "switch", whose Jacobian has two entries that are non-zero in the early calls and
+    //     exactly zero later, so that a sparse container built from it stores a DIFFERENT set of entries later on.  Whatever
+    //     the container, the run must equal the Rust run with the analytical Jacobian (hence the dense-return run).
+    {
+        let mut forms: Vec<&str> = Vec::new();
+        if tb.jacrets.iter().any(|s| s.form == "dense") { forms.push("ndarray"); }
+        if tb.jacrets.iter().any(|s| s.form == "sparse") { forms.extend(["sp_csc", "sp_csr", "sp_coo", "sp_csc_ez", "duck_coo", "duck_toarray"]); }
+        for f in forms {
+            for m in ["Radau", "BDF"] {
+                for tight in [true, false] {
+                    let mut c = base_case("switch", 3);
+                    set_method(&mut c, canonical(tb, m));
+                    if tight { apply_facet(&mut c, "tol-scalar", tb, &mut rng); }
+                    c.jac = "callable".into(); c.jac_form = "callable".into();
+                    c.jac_ret = f.into();
+                    c.want_pattern_change = f != "ndarray";
+                    c.class = "jac-return-container".into();
+                    out.push(c);
+                }
+            }
+        }
+    }
     for (i, c) in out.iter_mut().enumerate() { c.id = format!("k{:05}", i + 1); }
     out
 }
@@ -742,7 +814,8 @@ fn load_tables(path: &str) -> Tables {
     let pick = |k: &str| all.iter().filter(|s| s.kind == k).cloned().collect::<Vec<_>>();
     let mut tb = Tables { methods: pick("method"), tols: pick("tol"), steps: pick("step"), evattrs: pick("evattr"), jacs: pick("jac"),
              shapes: pick("shape"), patterns: pick("pattern"), evundoc: vec![], spforms: pick("spform"),
-             evlists: pick("evlist"), jacsrcs: pick("jacsrc") };
+             evlists: pick("evlist"), jacsrcs: pick("jacsrc"),
+             solsegs: pick("solseg"), jacrets: pick("jacret") };
     tb.jacsrcs.sort_by_key(|s| (s.jac.clone(), s.sp.clone()));
     tb.evlists.sort_by_key(|s| (s.evs.len(), s.evs.iter().map(|e| (e.terminal.clone(), e.direction.clone())).collect::<Vec<_>>()));
     tb.spforms.sort_by_key(|s| s.form.clone());
